@@ -1,7 +1,7 @@
 \* NOT registered: the unrepaired sendBlock (error of transmitBlock swallowed).
 \* TLC must report that InvC20 is violated (DESIGN section 5 item 1).
 CONSTANTS Alphabet = {97, 98} MaxLen = 3 MaxDatas = {1, 2, 3} WeakM = 65536
-          SwallowSendBlockError = TRUE Faults = TRUE
+          SwallowSendBlockError = TRUE Faults = TRUE OpReset = "whole"
 SPECIFICATION Spec
 INVARIANTS InvC19 InvC20
 CHECK_DEADLOCK FALSE
